@@ -7,6 +7,7 @@ taken in a well-formed heap; that part is `C15_atomic` in `Ajson.Props.C05`, on 
 import Ajson.Model.Mutate
 import Ajson.Proofs.HeapBasics
 import Ajson.Proofs.Atomic
+import Ajson.Proofs.AtomicContainers
 
 namespace Ajson.Props.C15
 open Ajson Ajson.Heap
@@ -113,5 +114,16 @@ theorem C15_accepted_or_untouched_at_every_step (pre : List Ajson.Proofs.Edit) (
 `Clone()` has no failure mode at all (it returns a node, never an error) -/
 theorem C15_set_node_accepted_or_untouched (h : Heap) (n v : Nat) :
     Ajson.Proofs.Settled h (h.setNode n v).2 (h.setNode n v).1 := Ajson.Proofs.setNode_settled h n v
+
+/-- **SetArray and SetObject are all-or-nothing, and so is every step of every history**: on every sound acyclic heap a step —
+an edit request, Clone, SetArray or SetObject with any elements, SetNode, on any nodes that exist at that moment — is accepted, or
+rejected with the heap exactly as before. For SetArray/SetObject: a request that passes the validation never fails halfway — the
+loop guard, false for every element at validation time, stays false while the receiver is prepared and through each append
+(an append adds the one parent link element → receiver; a chain from the receiver upwards that used it would have made the element
+an ancestor of the receiver before: `up_appendNode`, Proofs/AtomicContainers) -/
+theorem C15_every_step_accepted_or_untouched (pre : List Ajson.Proofs.Step) (s : Ajson.Proofs.Step) (post : List Ajson.Proofs.Step) (h : Heap)
+    (hs : Ajson.Proofs.Struct h) (ha : Ajson.Proofs.Acyc h) (hv : Ajson.Proofs.ValidSteps h (pre ++ s :: post)) :
+    Ajson.Proofs.Settled (pre.foldl Ajson.Proofs.Step.run h) (s.outcome (pre.foldl Ajson.Proofs.Step.run h)) (s.run (pre.foldl Ajson.Proofs.Step.run h)) :=
+  Ajson.Proofs.steps_settled pre s post h hs ha hv
 
 end Ajson.Props.C15
